@@ -16,6 +16,7 @@ from symx import shims, runner
 from symx.common import Report, run_instances, import_repo, src_hash, write_replay, load_findings
 
 PID = 'C11'
+NRA_MS = [10000]
 EPS8 = z3.Q(1, 10 ** 8)
 DEG2 = z3.Q(3, 10 ** 16)
 RND = z3.Q(1, 10 ** 9)      # relative slack for double rounding of the concrete layout constants
@@ -29,6 +30,17 @@ def d2(p, q):
 
 def Lp(p):
     return (E.lift(p[0]), E.lift(p[1]))
+
+
+def d2_closed(p, a, b):
+    """squared distance point - segment by the clamped-projection closed form (z3 term with ite); degenerate segments -> |p-a|^2."""
+    vx, vy = b[0] - a[0], b[1] - a[1]
+    l2 = vx * vx + vy * vy
+    t = ((p[0] - a[0]) * vx + (p[1] - a[1]) * vy) / z3.If(l2 == 0, 1, l2)
+    t = z3.If(t < 0, 0, z3.If(t > 1, 1, t))
+    t = z3.If(l2 == 0, 0, t)
+    q = (a[0] + t * vx, a[1] + t * vy)
+    return d2(p, q)
 
 
 def at(a, b, u):
@@ -112,6 +124,7 @@ LAYOUTS = {   # concrete coordinates (y, x) for nodes 1..3; the query point and 
     'long': {1: (0.0, -10.0), 2: (0.0, 10.0), 3: (3.0, 0.0), 4: (-4.0, 5.0)},
     'diag': {1: (0.5, -1.0), 2: (2.0, 3.0), 3: (-1.0, 1.0)},
     'zero': {1: (1.0, 1.0), 2: (1.0, 1.0), 3: (1.0, 2.0)},
+    'fan3': {1: (0.0, 0.0), 2: (5.0, 5.0), 3: (0.0, 1.0), 4: (1.0, 1.0)},
     'tiny': {1: (50.87, 4.7), 2: (50.87, 4.70008), 3: (50.87003, 4.7)},
     'metres1e7': {1: (5650000.3, 10000000.7), 2: (5650080.4, 10000060.2), 3: (5650000.6, 10000100.9)},
 }
@@ -150,6 +163,9 @@ def run_instance(inst):
     shape, max_elmt = inst[0], inst[1]
     layout = inst[3] if len(inst) > 3 else None
     backend = inst[4] if len(inst) > 4 else 'inmem'
+    topk = '+topk' in backend
+    backend_name = backend
+    backend = backend.split('+')[0]
     graph, kind = SHAPES[shape]
     shims.install()
     d = None
@@ -157,7 +173,7 @@ def run_instance(inst):
         sqlcommon.install()
         d = sqlcommon.scratch_dir()
     cnt = [0]
-    name = f"{backend} {kind} {shape} max_elmt={max_elmt} coords={layout or 'symbolic'}"
+    name = f"{backend_name} {kind} {shape} max_elmt={max_elmt} coords={layout or 'symbolic'}"
 
     def scenario():
         eng = E.get_engine()
@@ -169,9 +185,12 @@ def run_instance(inst):
         if backend == 'sqlite':
             sqlshim.reset()
         mp = make_map(backend, graph, coords, d, cnt[0])
-        loc = (eng.fresh("qy"), eng.fresh("qx"))
+        loc = ((0.5 if backend_name.endswith('1d') else eng.fresh("qy")), eng.fresh("qx"))
         r2 = z3.Real("r_sq")
         eng.assume(r2 > 0)
+        if topk:
+            # focus on sorting / truncation: everything lies within the radius (radius 100, query within [-5,5]^2)
+            eng.assume(z3.And(r2 == 10000, E.lift(loc[0]) >= -5, E.lift(loc[0]) <= 5, loc[1].t >= -5, loc[1].t <= 5))
         r = eng.sqrt_of(r2, name="r")
         res = query(mp, kind, loc, r, max_elmt)
         return dict(coords=coords, loc=loc, r=r, r2=r2, res=res)
@@ -239,12 +258,12 @@ def run_instance(inst):
                     # an omitted edge: no point of it is (clearly) nearer than every returned edge while the result is full,
                     # or no point of it is (clearly) within the radius   [forall u: A(u)] or [forall u2: B(u2)]
                     a, b = C[key[0]], C[key[1]]
-                    wu, wu2 = at(a, b, u), at(a, b, u2)
+                    dk = d2_closed(loc, a, b)       # independent closed form (clamped projection) instead of a quantified witness
                     slack = BAND + z3.Q(4, 10 ** 8) * (1 + r2)
-                    A_ = z3.And(full, z3.Implies(z3.And(u >= 0, u <= 1), z3.And(*[d2(loc, wu) >= radic[k] - slack for k in got])))
-                    B_ = z3.Implies(z3.And(u2 >= 0, u2 <= 1), d2(loc, wu2) >= r2 - slack)
-                    rA = z3.And(full, z3.Implies(z3.And(u >= 0, u <= 1), z3.And(*[d2(loc, wu) >= radic[k] * z3.Q(3, 4) for k in got])))
-                    rB = z3.Implies(z3.And(u2 >= 0, u2 <= 1), z3.Or(d2(loc, wu2) >= r2 * z3.Q(3, 4), d2(loc, wu2) >= r2 - z3.Q(1, 100)))
+                    A_ = z3.And(full, *[dk >= radic[k] - slack for k in got])
+                    B_ = dk >= r2 - slack
+                    rA = z3.And(full, *[dk >= radic[k] * z3.Q(3, 4) for k in got])
+                    rB = z3.Or(dk >= r2 * z3.Q(3, 4), dk >= r2 - z3.Q(1, 100))
                     cl.append((f'omitted_{key}_is_not_among_the_nearest', z3.Or(A_, B_), z3.Or(rA, rB)))
         ds = [radic[(row[1],) if kind == 'nodes' else (row[1], row[3])] for row in res]
         cl.append(('sorted_by_distance', z3.And(*[a <= b for a, b in zip(ds, ds[1:])]) if len(ds) > 1 else z3.BoolVal(True)))
@@ -254,7 +273,7 @@ def run_instance(inst):
 
     def confirm(eng, model, v, cname):
         cc = {n: tuple(E.model_value(model, c.t) if E.is_sym(c) else float(c) for c in p) for n, p in v['coords'].items()}
-        loc = tuple(E.model_value(model, c.t) for c in v['loc'])
+        loc = tuple(E.model_value(model, c.t) if E.is_sym(c) else float(c) for c in v['loc'])
         r = max(E.model_value(model, v['r2']), 0.0) ** 0.5
         bad, res = concrete_query(backend, shape, cc, loc, r, max_elmt)
         if bad:
@@ -266,7 +285,7 @@ def run_instance(inst):
     def witness(eng, v):
         return [f'result_size_{len(v["res"])}']
     try:
-        out = runner.explore(name, runner.nra_engine(10000), scenario, claims, confirm=confirm, witness=witness,
+        out = runner.explore(name, runner.nra_engine(NRA_MS[0]), scenario, claims, confirm=confirm, witness=witness,
                              budget_s=inst[2] if len(inst) > 2 else None)
     finally:
         shims.uninstall()
@@ -355,7 +374,7 @@ def instances(tier):
     out = [('n1', None, None), ('n2', None, None), ('n2', 1, None)]
     for lay in LAYOUTS:
         out += [('e1', None, lay), ('e2_bidir', None, lay)]
-    out += [('e2_fan', None, 'unit'), ('e2_fan', 1, 'unit'), ('e3_fan', 2, 'unit'), ('e3_fan', 2, 'long'), ('e1_selfloop', None, 'long'), ('e2_fan', 1, 'metres1e7')]
+    out += [('e2_fan', None, 'unit'), ('e2_fan', 1, 'unit'), ('e3_fan', 2, 'fan3', 'inmem+topk'), ('e3_fan', 2, 'fan3', 'inmem+topk1d'), ('e3_fan', 2, 'fan3', 'sqlite+topk1d'), ('e3_fan', 1, 'long', 'inmem+topk'), ('n3', 2, 'unit', 'inmem+topk'), ('e1_selfloop', None, 'long'), ('e2_fan', 1, 'metres1e7')]
     out += [('n1', None, None, 'sqlite'), ('n2', None, None, 'sqlite'), ('n2', 1, 'metres1e7', 'sqlite'), ('n2', None, 'metres1e7', 'sqlite'), ('n3', None, 'unit', 'sqlite'), ('e1', None, 'unit', 'sqlite'),
             ('e1', None, 'long', 'sqlite'), ('e2_bidir', None, 'metres1e7', 'sqlite'), ('e2_fan', None, 'diag', 'sqlite')]
     if tier == 'thorough':
